@@ -237,6 +237,76 @@ def entrySounds : List String := {_strs(snd)}
 """
 
 
+def _bvcd(repo):
+    tree = ast.parse((repo / 'src/srctools/choreo.py').read_text(encoding='utf-8'))
+
+    def enum_vals(name):
+        c = next((n for n in tree.body if isinstance(n, ast.ClassDef) and n.name == name), None)
+        if c is None:
+            raise ExtractError(f'enum {name} not found')
+        out = {}
+        for n in c.body:
+            if isinstance(n, ast.Assign) and len(n.targets) == 1 and isinstance(n.targets[0], ast.Name):
+                try:
+                    v = eval(compile(ast.Expression(n.value), '<enum>', 'eval'), {'__builtins__': {}})
+                except Exception:
+                    raise ExtractError(f'{name}.{n.targets[0].id}: value is not a constant expression')
+                if isinstance(v, int):
+                    out[n.targets[0].id] = v
+        return out
+    et = enum_vals('EventType')
+    ct = enum_vals('CaptionType')
+    ef = enum_vals('EventFlags')
+    ip = enum_vals('Interpolation')
+    ver = ast.literal_eval(_top(tree, 'BINARY_VERSION'))
+    for k in ('Gesture', 'Loop', 'Speak'):
+        if k not in et:
+            raise ExtractError(f'EventType.{k} missing')
+    enums = [('EventType.Gesture', et['Gesture']), ('EventType.Loop', et['Loop']), ('EventType.Speak', et['Speak']),
+             ('EventType.max', max(et.values())), ('EventType.count', len(et)), ('CaptionType.Disabled', ct.get('Disabled', -1)),
+             ('CaptionType.max', max(ct.values())), ('EventFlags.end', 2 * max(ef.values())),
+             ('Interpolation.max', max(ip.values())), ('BINARY_VERSION', ver)]
+
+    def fmts(cls, fn):
+        f = _func(tree, fn, cls)
+        out = []
+        for n in ast.walk(f):
+            if isinstance(n, ast.Call):
+                fu = n.func
+                nm = fu.attr if isinstance(fu, ast.Attribute) else (fu.id if isinstance(fu, ast.Name) else '')
+                if nm in ('pack', 'struct_read') and n.args:
+                    a = n.args[0]
+                    if isinstance(a, ast.Constant) and isinstance(a.value, str):
+                        out.append((n.lineno, n.col_offset, a.value))
+                    else:
+                        out.append((n.lineno, n.col_offset, '@' + ast.unparse(a)))
+                elif nm == 'write' and n.args and isinstance(n.args[0], ast.Constant) and isinstance(n.args[0].value, bytes):
+                    out.append((n.lineno, n.col_offset, 'bytes:' + n.args[0].value.hex()))
+                elif nm == 'read' and n.args and isinstance(n.args[0], ast.Constant):
+                    out.append((n.lineno, n.col_offset, 'read:%d' % n.args[0].value))
+        return [x[2] for x in sorted(out)]
+    table = []
+    for cls, fn in (('Tag', 'export_binary'), ('Tag', 'parse_binary'), ('Curve', 'export_binary'), ('Curve', 'parse_binary'),
+                    ('FlexAnimTrack', 'export_binary'), ('FlexAnimTrack', 'parse_binary'),
+                    ('Event', 'export_binary'), ('Event', 'parse_binary'), ('Channel', 'export_binary'),
+                    ('Channel', 'parse_binary'), ('Actor', 'export_binary'), ('Actor', 'parse_binary'),
+                    ('Scene', 'export_binary'), ('Scene', 'parse_binary')):
+        table.append((f'{cls}.{fn}', fmts(cls, fn)))
+    curve_fmt = None
+    c = next(n for n in tree.body if isinstance(n, ast.ClassDef) and n.name == 'Curve')
+    for n in c.body:
+        if isinstance(n, ast.AnnAssign) and isinstance(n.target, ast.Name) and n.target.id == 'BIN_FMT':
+            curve_fmt = _struct_fmt(n.value, 'Curve.BIN_FMT')
+    if curve_fmt is None:
+        raise ExtractError('Curve.BIN_FMT not found')
+    return f"""/-- enum values and constants the BVCD model hard-codes. -/
+def bvcdEnums : List (String × Nat) := [{', '.join(f'({lean_string(k)}, {v})' for k, v in enums)}]
+def bvcdCurveFmt : String := {lean_string(curve_fmt)}
+/-- struct formats / literal byte writes / literal read sizes of every binary writer and reader, in source order. -/
+def bvcdFmts : List (String × List String) := [{', '.join(f'({lean_string(k)}, {_strs(v)})' for k, v in table)}]
+"""
+
+
 def _vmt(repo):
     tree = ast.parse((repo / 'src/srctools/vmt.py').read_text(encoding='utf-8'))
     try:
@@ -284,5 +354,5 @@ def sndRaw : List String := {_strs(sorted(raw))}
 def generate(repo):
     return ("import Srctools.Model.C20\n"
             "/-! GENERATED by tools/gen_c20.py from src/srctools/{cmdseq,choreo,vmt,sndscript}.py — do not edit. -/\n"
-            "namespace Gen.C20\n\n" + _cmdseq(repo) + "\n" + _choreo(repo) + "\n" + _vmt(repo) + "\n" + _snd(repo) +
+            "namespace Gen.C20\n\n" + _cmdseq(repo) + "\n" + _choreo(repo) + "\n" + _bvcd(repo) + "\n" + _vmt(repo) + "\n" + _snd(repo) +
             "\nend Gen.C20\n")
